@@ -535,6 +535,128 @@ func rvZeroTest(cond ssa.Value) (x ssa.Value, trueMeansZero bool, ok bool) {
 	return nil, false, false
 }
 
+// rvSearchNotFound: the fact says that a standard-library search over a slice examined every element
+// and accepted none: `slices.ContainsFunc(S, pred)` known false, or the result i of
+// `slices.IndexFunc(S, pred)` known negative (`i < 0`, `i == -1`, `!(i >= 0)` … against a constant;
+// IndexFunc answers -1 or a valid index). Both functions are, by their definition in the standard
+// library, `for i := range S { if pred(S[i]) { return true / i } }; return false / -1`: the predicate
+// is the loop body, its parameter the current element, a true answer the early exit.
+func rvSearchNotFound(f Fact) (slice ssa.Value, pred *ssa.Function, ok bool) {
+	cond := stripConv(f.Cond)
+	if call, idx := asCall(cond); call != nil && idx == -1 {
+		sl, pr, index, isSearch := pfSearchCall(call)
+		if isSearch && !index && !f.Pol {
+			return sl, pr, true
+		}
+		return nil, nil, false
+	}
+	b, isBin := cond.(*ssa.BinOp)
+	if !isBin {
+		return nil, nil, false
+	}
+	l, r, op := b.X, b.Y, b.Op
+	if _, isC := constInt(l); isC {
+		l, r = r, l
+		switch op {
+		case token.LSS:
+			op = token.GTR
+		case token.GTR:
+			op = token.LSS
+		case token.LEQ:
+			op = token.GEQ
+		case token.GEQ:
+			op = token.LEQ
+		}
+	}
+	k, isC := constInt(r)
+	if !isC {
+		return nil, nil, false
+	}
+	if !f.Pol {
+		switch op {
+		case token.LSS:
+			op = token.GEQ
+		case token.GEQ:
+			op = token.LSS
+		case token.GTR:
+			op = token.LEQ
+		case token.LEQ:
+			op = token.GTR
+		case token.EQL:
+			op = token.NEQ
+		case token.NEQ:
+			op = token.EQL
+		default:
+			return nil, nil, false
+		}
+	}
+	negative := false
+	switch op {
+	case token.LSS:
+		negative = k <= 0
+	case token.LEQ:
+		negative = k <= -1
+	case token.EQL:
+		negative = k <= -1
+	}
+	if !negative {
+		return nil, nil, false
+	}
+	call, idx := asCall(l)
+	if call == nil || idx != -1 {
+		return nil, nil, false
+	}
+	sl, pr, index, isSearch := pfSearchCall(call)
+	if !isSearch || !index {
+		return nil, nil, false
+	}
+	return sl, pr, true
+}
+
+// rvPredRejectsOnly: every way the one-parameter predicate can answer false establishes
+// `holds` about its parameter: a constant false is returned under a guard fact that does, a computed
+// answer is itself (the negation of) such a test. Returns of the constant true are the search's
+// early exit and irrelevant here.
+func (p *Program) rvPredRejectsOnly(pred *ssa.Function, holds func(f Fact, elem ssa.Value) bool) (bool, string) {
+	if pred == nil || len(pred.Params) != 1 || pred.Blocks == nil {
+		return false, "predicate has no body"
+	}
+	elem := ssa.Value(pred.Params[0])
+	n := 0
+	for _, rc := range p.returnCases(pred) {
+		if pred.Recover != nil && rc.Ret.Block() == pred.Recover {
+			continue
+		}
+		if len(rc.Results) != 1 || rc.Results[0] == nil {
+			return false, "predicate result not resolvable"
+		}
+		r := rc.Results[0]
+		facts := rc.Facts
+		if cb, isC := constBool(r); isC {
+			if cb {
+				continue
+			}
+		} else {
+			facts = append(append([]Fact{}, facts...), p.mkFact(r, false))
+		}
+		n++
+		good := false
+		for _, f := range facts {
+			if holds(f, elem) {
+				good = true
+				break
+			}
+		}
+		if !good {
+			return false, "the predicate can reject an element without the test (return at " + p.IPos(rc.Ret) + ")"
+		}
+	}
+	if n == 0 {
+		return false, "the predicate never answers false"
+	}
+	return true, ""
+}
+
 // rvRel is an ordering fact "A op B" (op is < or <=) derived from a guard fact.
 type rvRel struct {
 	A, B   ssa.Value
